@@ -111,6 +111,23 @@ def desc_tests(d):
     return out
 
 
+def desc_suites(d):
+    """[(dotted path, [test desc])] for every suite, in the order of `Report.all_suites()` (top level in insertion order,
+    every level below through the rank-sorted accessor).  The JUnit file names a suite by its dotted path STRING; names may
+    contain dots themselves (`compat_1.2`, `@lcc.suite(name="a.b")`), so the suite a test belongs to is never recovered by
+    splitting a path string, and two different suites may legitimately share one dotted string (`a.b` and `a` / `b`):
+    those are told apart by their order of appearance."""
+    out = []
+
+    def go(ss, pre):
+        for s in ss:
+            p = pre + [s["md"]["name"]]
+            out.append((".".join(p), list(s["tests"])))
+            go(sorted(s["suites"], key=lambda x: x["md"]["rank"]), p)
+    go(d["suites"], [])
+    return out
+
+
 def counts(tests):
     c = {s: 0 for s in R.STATUSES}
     for _, t in tests:
@@ -176,18 +193,22 @@ class ViewsStream(C.Stream):
             if not missing:
                 fails.append(C.Failure("C20/junit/save-raised", "JUnit save raised " + ju["err"]))
             return fails
-        # per suite counters and per test marks, suites matched by path
+        # per suite counters and per test marks, suites matched by their dotted path (k-th of that name with the k-th)
         by_suite = {}
-        for path, t in tests:
-            by_suite.setdefault(path.rsplit(".", 1)[0], []).append(t)
+        for name, ts in desc_suites(desc):
+            if ts:
+                by_suite.setdefault(name, []).append(ts)
         seen = {}
         for s in ju["suites"]:
             seen.setdefault(s["name"], []).append(s)
-        for name, ts in by_suite.items():
-            if len(seen.get(name, [])) != 1:
-                fails.append(C.Failure("C20/junit/suite-missing", f"suite {name!r} appears {len(seen.get(name, []))} times in the JUnit file"))
+        pairs = []
+        for name, lst in by_suite.items():
+            if len(seen.get(name, [])) != len(lst):
+                fails.append(C.Failure("C20/junit/suite-missing", f"suite {name!r} appears {len(seen.get(name, []))} times in the JUnit file, "
+                                                                  f"{len(lst)} suite(s) of that path hold tests"))
                 continue
-            s = seen[name][0]
+            pairs += [(name, s, ts) for s, ts in zip(seen[name], lst)]
+        for name, s, ts in pairs:
             c = counts([(None, t) for t in ts])
             if (s["tests"], s["failures"], s["skipped"]) != (c["total"], c["failed"], c["skipped"]):
                 fails.append(C.Failure("C20/junit/suite-counters", f"suite {name!r}: tests/failures/skipped = "
